@@ -222,7 +222,7 @@ func Run(r *ev.Run) {
 	// ---- hellos that do not offer TLS 1.3 but carry an AUTHENTIC ECH payload for a held key: pass-through required ----
 	{
 		key := echx.NewKey("c05-same", 42, echx.AllSuites, "plain.example.org")
-		for vi, sv := range [][]uint16{nil, {0x0303}, {0x0303, 0x0302, 0x0301}} {
+		for vi, sv := range [][]uint16{nil, {0x0303}, {0x0303, 0x0302, 0x0301}, {0x7a7a, 0x0303}, {0x0303, 0x0a0a}} { // GREASE values are not versions
 			for _, pos := range []int{0, 2, 99} {
 				outer, idx := echx.StdOuter("plain.example.org", tlsref.DetBytes("sid", 32), pos)
 				outer.Exts = slices.DeleteFunc(outer.Exts, func(e tlsref.Ext) bool { return e.Type == tlsref.ExtSupportedVersions })
